@@ -68,6 +68,10 @@ CHECKS["C13"] = {
          "params": {"quick": grid(n=[0, 1, 2, 3, 4, 5]), "thorough": grid(n=[0, 1, 2, 3, 4, 5, 6, 7, 8])}, "cover": []},
         {"name": "setheader", "pkg": "rfc822", "pkgname": "rfc822", "entry": "VerifSetHeader", "files": ["zz_verif_rfc822.go"],
          "params": {"quick": grid(n=[3, 4, 5]), "thorough": grid(n=[3, 4, 5, 6, 7])}, "cover": ["set-header-ok", "keyed-field"]},
+        {"name": "sections", "pkg": "internal/state", "pkgname": "state", "entry": "VerifC13Sections",
+         "files": ["zz_verif_c13.go"],
+         "params": {"quick": grid(template=[0], n=[0, 1, 2, 3, 4]) + grid(template=[1, 2, 3], n=[0, 2, 4]), "thorough": grid(template=[0], n=list(range(0, 8))) + grid(template=[1, 2, 3], n=[0, 2, 4, 6])},
+         "cover": ["sections-ok"]},
         {"name": "fields", "pkg": "rfc822", "pkgname": "rfc822", "entry": "VerifFields", "files": ["zz_verif_rfc822.go"],
          "params": {"quick": grid(n=[3, 4], fieldLen=[1]) + grid(n=[4], fieldLen=[2]), "thorough": grid(n=[3, 4, 5, 6], fieldLen=[1, 2])}, "cover": ["field-selected"]},
     ],
@@ -94,6 +98,9 @@ CHECKS["C11"] = {
          "params": {"quick": grid(prefix=[0], n=[1, 2, 3]) + grid(prefix=[1, 2, 3, 4, 5, 6, 7, 8, 9, 10, 11, 12, 13, 15, 16, 17, 18, 20, 21, 22, 23], n=[1, 2, 3]) + grid(prefix=[19], n=[4, 8, 12]),
                     "thorough": grid(prefix=[0], n=[1, 2, 3, 4]) + grid(prefix=list(range(1, 14)) + list(range(15, 24)), n=[1, 2, 3, 4]) + grid(prefix=[19], n=[6, 10, 14])},
          "summarise": SCAN_SUMMARISE, "cover": [], "alloc_limit": 31457280, "max_alloc": 32, "replay_mem_limit_kb": 4000000},
+        {"name": "nesting", "pkg": "imap/command", "pkgname": "command", "entry": "VerifC11Nesting", "files": ["zz_verif_c11.go", "zz_verif_reader.go"],
+         "params": {"quick": grid(unit=[0, 1, 2], k=[64], amplify=[8000000]), "thorough": grid(unit=[0, 1, 2], k=[64, 128], amplify=[8000000])},
+         "cover": ["nesting-run"], "max_depth": 1000, "replay_accept_crash": True, "replay_timeout_s": 300},
     ],
     "stubs": ["rfcparser.Reader -> fixed symbolic buffer then io.EOF, counting reads past the end"],
     "outside": ["inputs longer than the byte bound", "RSS / liveness of other sessions", "the 20-errors disconnect in Session.serve (goroutines)", "TLS sniffing"],
@@ -138,6 +145,9 @@ CHECKS["C12"] = {
          "params": {"quick": grid(n=[0, 1, 2, 3, 4, 5, 6]), "thorough": grid(n=list(range(0, 10)))}, "cover": []},
         {"name": "sections", "pkg": "rfc822", "pkgname": "rfc822", "entry": "VerifSections", "files": ["zz_verif_rfc822.go"],
          "params": {"quick": grid(n=[0, 3, 5, 6]), "thorough": grid(n=list(range(0, 9)))}, "cover": []},
+        {"name": "nesting", "pkg": "rfc5322", "pkgname": "rfc5322", "entry": "VerifC12Nesting", "files": ["zz_verif_c12.go"],
+         "params": {"quick": grid(k=[64], amplify=[8000000]), "thorough": grid(k=[64, 128], amplify=[8000000])},
+         "cover": ["nesting-run"], "max_depth": 1000, "replay_accept_crash": True, "replay_timeout_s": 300},
     ],
     "stubs": [],
     "outside": ["inputs longer than the byte bound (reached only through the per-step progress obligations)", "encoded-word / charset decoding", "the exact MIME tree of well-formed messages (structure equality) - only containment/ordering is decided"],
